@@ -102,9 +102,9 @@ CHECKS["C07"] = (
 
 CHECKS["C05"] = (
     "exploration",
-    "enumeration of a bounded configuration product (full in thorough; fixed core + seed-selected stratum in quick), running every registered decoder test-case generator to exhaustion and judging each test case by a per-family oracle on the real validator's output",
+    "enumeration of a bounded configuration product (thorough: every second configuration plus the core, or the full product with VERIF_C05_FULL=1; quick: fixed core + seed-selected stratum), running every registered decoder test-case generator to exhaustion and judging each test case by a per-family oracle on the real validator's output",
     "For each configuration every decoder test case must serialise, be accepted by the validator, decode with the configured video parameters and have a unique name; encoding-variant families must decode to exactly the plain encoding of the same source, mid-grey families to exact mid-grey, picture_numbers to the documented number lists.",
-    "Natural pictures swapped for the suite's small ones; content-changing families get the conformance/parameters oracle only; quick tier is a stated subset of the product (exhaustive only in thorough).",
+    "Natural pictures swapped for the suite's small ones; content-changing families get the conformance/parameters oracle only; both tiers are stated subsets of the 8448-configuration product unless VERIF_C05_FULL=1 (evidence says exhaustive: false); the subset is a fixed function of the seed, not a sample drawn at run time.",
     "DESIGN.md 6/C05",
 )
 
